@@ -34,11 +34,18 @@ def main():
         print("refusing: /repo has uncommitted changes"); sys.exit(2)
     killed = survived = 0
     bad = []
+    import time
+    t_start = time.time()
+    budget = float(os.environ.get("SELFTEST_BUDGET_S", "0") or 0)
+    not_run = []
     for kind in ("mutants", "benign"):
         for f in sorted(glob.glob(f"/verif/selftest/{kind}/*.json")):
             name = os.path.basename(f)[:-5]
             m = json.load(open(f))
             if only and not any(o in name or o in m["props"] for o in only):
+                continue
+            if budget and time.time() - t_start > budget:
+                not_run.append(name)
                 continue
             try:
                 if not apply(m):
@@ -73,8 +80,9 @@ def main():
                             print("    " + "\n    ".join(out.strip().split("\n")[-4:]))
             finally:
                 restore()
-    print(f"killed={killed} survived={survived} problems={bad}")
+    print(f"killed={killed} survived={survived} problems={bad}" + (f" not-run-within-budget={len(not_run)}" if not_run else ""))
     if report:
-        json.dump({"mutants_killed": killed, "mutants_survived": survived, "problems": bad, "not_applicable_on_this_tree": skipped}, open(report, "w"), indent=1)
+        json.dump({"mutants_killed": killed, "mutants_survived": survived, "problems": bad, "not_applicable_on_this_tree": skipped,
+                   "not_run_within_time_budget": not_run, "time_budget_s": budget}, open(report, "w"), indent=1)
     sys.exit(1 if bad else 0)
 main()
